@@ -973,11 +973,16 @@ def run_bounded(ctx: Ctx) -> Report:
             for k, v in r["ops"].items(): ops[k] = ops.get(k, 0) + v
         bound = {"unary": "all shapes numel<=6 ndim<=3 (+3 zero-size) x pattern set of T (every pattern for ndim<=2, every 3rd for ndim 3; incl. stride-0/transposed storage) x defaults {0,1,-inf,inf,2.5,-2.5,nan} x every unary/in-place op x nan_to_num_ argument sets x scalars {0,1,-1,2.5,inf} (all 5 on every 8th pattern, one rotating otherwise; every (op, default, scalar) triple occurs in every shape with >=5 patterns); float64/float32, bool, int64",
                  "struct": "same pattern set; every dim / permutation / index prefix / unsqueeze position / expand size vector over {n,1,2,3} / every target shape of equal numel with ndim<=3",
-                 "binary": f"all pairs of patterns over equal shapes numel<={6 if ctx.thorough else 4} (+every 5th pair of (6,),(2,3),(3,2),(5,)) and over torch-broadcastable shape pairs; default pairs (id,id),(id,x),(x,id),(x,y) per op",
-                 "where": "all (t,c) pattern pairs x 3 u patterns x c.default in {F,T} over equal shapes numel<=4 and 10 broadcasting shape triples",
+                 "binary": (f"all well-typed (gen_pt.compatible) pairs of patterns over equal shapes numel<={6 if ctx.thorough else 4}, ndim<=2 (+4 three-dimensional, +2 zero-size)"
+                            + ("" if ctx.thorough else " (+every 5th pair of (6,),(2,3),(3,2),(5,))") + " and every "
+                            + ("" if ctx.thorough else "3rd ") + "pair over torch-broadcastable shape pairs"
+                            + (" (thorough pattern set, <= ~1500 pairs per shape pair)" if ctx.thorough else "")
+                            + "; per op " + ("7" if ctx.thorough else "2 rotating of the 4") + " default pairs (id,id),(id,x),(x,id),(x,y), x,y in {0,1,-inf,inf,2.5,nan}; bool defaults for logical ops"),
+                 "where": "all well-typed (t,c) pattern pairs x 3 (thorough 6) u patterns x c.default in {F,T} over equal shapes numel<=4 and 10 broadcasting shape triples",
                  "pairs": "all ordered pairs (project, stack of 2) and derived triples (stack of 3) of patterns per shape numel<=4",
                  "copy": "all pattern pairs over 9x9 shape pairs (any two shapes)",
-                 "prog": f"all compositions of {3 if ctx.thorough else 2} steps from 35 step instances x every pattern of 13 shapes"}[kind]
+                 "prog": ("every 31st composition of 3 steps from 35 step instances x every quick-set pattern of all shapes numel<=6" if ctx.thorough
+                          else "all compositions of 2 steps from 27 step instances x every (every 2nd if >12) pattern of 13 shapes")}[kind]
         rep.bounded.append(Bounded(
             function=f"PatternedTensor: {title}", bound=bound,
             cases=sum(r["cases"] for r in rs), distinct_nontrivial=sum(r["nontrivial"] for r in rs),
